@@ -35,7 +35,8 @@ func runC15(c *Ctx) {
 	r := c.R
 	r.Rule = "validators and fold: EXHAUSTIVE over (byte value x position class) — every single byte, every byte after a valid first byte, " +
 		"after '~', as channel id byte 1..5 and as channel body byte — plus boundary lengths (1,2,49,50,51; '!' with 4/5/6 id bytes) and random strings " +
-		"over a name-biased alphabet; a case is non-trivial when the string is non-empty; distinct = distinct (runner,string)"
+		"over a name-biased alphabet; name-keyed queries (Source.Equals, Event.Equals, LookupUser/LookupChannel/IsInChannel/UserIn/InChannel/Perms.Lookup in a real session) under case-variant pairs incl. [\\]^ vs {|}~ and non-ASCII; " +
+		"a case is non-trivial when the string is non-empty; distinct = distinct (runner,string)"
 	one := func(runner, s string, cls string) {
 		c.run(runner, map[string]string{"s": s})
 		r.Count(runner+"\x00"+s, s != "", runner, cls)
@@ -103,4 +104,5 @@ func runC15(c *Ctx) {
 		}
 	}
 	r.Sample(map[string]string{"runner": "validchan", "s": q("!AB1C2x")})
+	runC15Lookups(c)
 }
